@@ -138,7 +138,7 @@ PROPERTIES = {
     'C03': dict(
         units=['active_peers', 'crypto', 'tls_config', 'wire', 'enum_glue', 'enum_certs'],
         canaries=['dialing', 'streams', 'crypto', 'tls_config', 'certs'],
-        extra=[validate.history_c03, validate.cert_corpus],
+        extra=[validate.history_c03, validate.cert_corpus, validate.stolen_certificate],
         counterexample=cex.cex_cert,
         scope='glue only: (a) the pinning verifier accepts a server certificate only if its public key is the expected identity AND the base verifier accepts it, '
               'and proof of key possession (handshake signature) is delegated unchanged to rustls restricted to Ed25519; (b) a dial with an expected identity goes through '
@@ -161,9 +161,9 @@ PROPERTIES = {
         assumptions=[CONC],
     ),
     'C01': dict(
-        units=['crypto', 'tls_config', 'wire', 'enum_glue', 'enum_certs'],
-        canaries=['streams', 'crypto', 'tls_config', 'certs'],
-        extra=[validate.cert_corpus],
+        units=['crypto', 'tls_config', 'wire', 'rpc_status', 'enum_glue', 'enum_certs'],
+        canaries=['streams', 'crypto', 'tls_config', 'certs', 'rpc_status'],
+        extra=[validate.cert_corpus, validate.stolen_certificate, validate.identity_claims_in_headers],
         counterexample=cex.cex_cert,
         scope='GLUE ONLY (cryptography and the X.509 / pkcs8 parsers are uninterpreted): the identity of a certificate is the Ed25519 key decoded from ITS OWN SubjectPublicKeyInfo and every parser failure is an error; '
               'the server / client TLS configurations handed to quinn install exactly anemo\'s verifiers, the node\'s own certificate and key, TLS 1.3; the node\'s own PeerId is its own public key; '
